@@ -711,3 +711,28 @@ pub fn offset_msgs(thorough: bool, xs: &[Vec<L>], tails: &[Vec<L>], tid: [u8; 12
     }
     v
 }
+
+
+/// DATA blobs whose bytes imitate the 4-byte headers of the integrity / fingerprint attributes (`00 08 00 14`,
+/// `00 1C 00 20`, `80 28 00 04`) at every word of their last 48 bytes, one pattern alone and every pair of
+/// (pattern, word) placements: whatever scans a message for those attributes other than from the front can be fooled.
+pub fn decoy_blobs() -> Vec<Vec<u8>> {
+    const PATS: [[u8; 4]; 3] = [[0x00, 0x08, 0x00, 0x14], [0x00, 0x1C, 0x00, 0x20], [0x80, 0x28, 0x00, 0x04]];
+    let base: Vec<u8> = (0..48u8).map(|i| 0x40 + (i % 32)).collect();
+    let mut out = vec![];
+    let places: Vec<(usize, usize)> = (0..3).flat_map(|p| (0..12).map(move |w| (p, w))).collect();
+    for (i, (p1, w1)) in places.iter().enumerate() {
+        let mut b = base.clone();
+        b[w1 * 4..w1 * 4 + 4].copy_from_slice(&PATS[*p1]);
+        out.push(b.clone());
+        for (p2, w2) in places.iter().skip(i + 1) {
+            if w2 == w1 {
+                continue;
+            }
+            let mut c = b.clone();
+            c[w2 * 4..w2 * 4 + 4].copy_from_slice(&PATS[*p2]);
+            out.push(c);
+        }
+    }
+    out
+}
